@@ -28,11 +28,34 @@ type leaf struct {
 	kind string // int bool string
 }
 
+type mapInput struct {
+	path string
+	term Term
+	sort string
+	mt   *types.Map
+}
+
 type flattener struct {
 	e      *enc
 	leaves []leaf
 	ok     bool
 	why    string
+	maps   []mapInput
+}
+
+// mapLeaves: leaves for the entries of the map inputs at the given candidate keys
+func (f *flattener) mapLeaves(keys []string) []leaf {
+	sub := &flattener{e: f.e, ok: true}
+	for _, m := range f.maps {
+		for i, k := range keys {
+			kt := smtStr(k)
+			p := fmt.Sprintf("%s{%d}", m.path, i)
+			sub.add(p+".key", kt, "string")
+			sub.add(p+".in", fmt.Sprintf("(select (dom_%s %s) %s)", m.sort, m.term, kt), "bool")
+			sub.flat(fmt.Sprintf("(select (val_%s %s) %s)", m.sort, m.term, kt), m.mt.Elem(), p+".val", 2)
+		}
+	}
+	return sub.leaves
 }
 
 func (f *flattener) add(path string, term Term, kind string) {
@@ -85,11 +108,15 @@ func (f *flattener) flat(term Term, ty types.Type, path string, depth int) {
 			}
 		}
 	case *types.Map:
-		// keys cannot be enumerated from get-value in a solver independent way: only emptiness is read
+		// keys cannot be enumerated from get-value: the entries are read for candidate keys (strings occurring in the model)
 		s := e.so.of(ty)
 		f.add(path+".nil", fmt.Sprintf("(nil_%s %s)", s, term), "bool")
-		f.ok = false
-		f.why = "map-typed input " + path
+		if b, ok := u.Key().Underlying().(*types.Basic); ok && b.Info()&types.IsString != 0 && depth <= 1 {
+			f.maps = append(f.maps, mapInput{path: path, term: term, sort: s, mt: u})
+		} else {
+			f.ok = false
+			f.why = "map-typed input " + path
+		}
 	case *types.Interface:
 		// tokens: text and line through the node functions (used by the todo scan)
 		if strings.HasSuffix(ty.String(), "antlr/v4.Token") {
@@ -409,6 +436,30 @@ func goLiteral(vals map[string]string, ty types.Type, path string, qual types.Qu
 			parts = append(parts, f.Name()+": "+l)
 		}
 		return fmt.Sprintf("%s{%s}", types.TypeString(ty, qual), strings.Join(parts, ", ")), true
+	case *types.Map:
+		if vals[path+".nil"] == "true" {
+			return fmt.Sprintf("%s(nil)", types.TypeString(ty, qual)), true
+		}
+		var parts []string
+		seen := map[string]bool{}
+		for i := 0; ; i++ {
+			p := fmt.Sprintf("%s{%d}", path, i)
+			kv, ok := vals[p+".key"]
+			if !ok {
+				break
+			}
+			if vals[p+".in"] != "true" || seen[kv] {
+				continue
+			}
+			seen[kv] = true
+			ks, _ := smtStrVal(kv)
+			l, ok := goLiteral(vals, u.Elem(), p+".val", qual, depth+1)
+			if !ok {
+				return "", false
+			}
+			parts = append(parts, strconv.Quote(ks)+": "+l)
+		}
+		return fmt.Sprintf("%s{%s}", types.TypeString(ty, qual), strings.Join(parts, ", ")), true
 	case *types.Pointer:
 		r, _ := smtIntVal(vals[path+".ref"])
 		if r == 0 {
@@ -482,12 +533,53 @@ func tryReplay(w *World, r *FuncResult, o *Obligation, dir string, rep *Replay) 
 	// candidate inputs: models of the failed obligation (direct, then bounded finder), several of them by blocking
 	var cands []map[string]string
 	how := ""
+	var curFlat *flattener
 	collect := func(enc2 *enc, o2 *Obligation, leaves []leaf) {
 		var block []map[string]string
 		for len(cands) < replayCandidates {
 			vals, solver, err := getValues(enc2, o2, leaves, dir, nil, block)
 			if err != nil {
 				return
+			}
+			if cur := curFlat; cur != nil && len(cur.maps) > 0 {
+				// entries of map inputs at candidate keys: every string of the model so far, in rounds
+				all := append([]leaf{}, leaves...)
+				for round := 0; round < 3; round++ {
+					keyset := map[string]bool{}
+					for p, v := range vals {
+						if strings.HasPrefix(v, "\"") && !strings.HasSuffix(p, ".key") {
+							if sv, ok := smtStrVal(v); ok {
+								keyset[sv] = true
+							}
+						}
+					}
+					var keys []string
+					for k := range keyset {
+						keys = append(keys, k)
+					}
+					sort.Strings(keys)
+					if len(keys) > 12 {
+						keys = keys[:12]
+					}
+					ml := cur.mapLeaves(keys)
+					pins := map[string]string{}
+					for k, v := range vals {
+						if strings.HasPrefix(k, "in.") && pinnable(k, vals) && !strings.Contains(k, "{") {
+							pins[k] = v
+						}
+					}
+					v2, _, err := getValues(enc2, o2, append(append([]leaf{}, all...), ml...), dir, pins, nil)
+					if err != nil {
+						break
+					}
+					n0 := len(vals)
+					for k, v := range v2 {
+						vals[k] = v
+					}
+					if len(vals) == n0 && round > 0 {
+						break
+					}
+				}
 			}
 			if how == "" {
 				how = solver
@@ -499,6 +591,7 @@ func tryReplay(w *World, r *FuncResult, o *Obligation, dir string, rep *Replay) 
 			block = append(block, vals)
 		}
 	}
+	curFlat = fl
 	collect(e, o, fl.leaves)
 	if len(cands) < replayCandidates && r.ss != nil {
 		r2 := verifyFuncMode(w, r.ss, fn, e.sweep, true)
@@ -508,6 +601,7 @@ func tryReplay(w *World, r *FuncResult, o *Obligation, dir string, rep *Replay) 
 				for _, in := range replayInputs(r2.Enc, o2) {
 					fl2.flat(in.Term, in.Ty, "in."+in.Name, 0)
 				}
+				curFlat = fl2
 				collect(r2.Enc, o2, fl2.leaves)
 			}
 		}
@@ -720,7 +814,36 @@ func evalClauseGround(w *World, ss *SpecSet, fn *ssa.Function, o *Obligation, in
 		for _, p := range fn.Params {
 			fl.flat(e.value(p), p.Type(), "in."+p.Name(), 0)
 		}
-		for _, l := range fl.leaves {
+		gl := fl.leaves
+		if len(fl.maps) > 0 {
+			// the entries of map inputs, in the order the candidate keys were numbered
+			var keys []string
+			for i := 0; ; i++ {
+				kv, ok := in[fmt.Sprintf("%s{%d}.key", fl.maps[0].path, i)]
+				if !ok {
+					break
+				}
+				ks, _ := smtStrVal(kv)
+				keys = append(keys, ks)
+			}
+			gl = append(append([]leaf{}, gl...), fl.mapLeaves(keys)...)
+			// keys outside the candidate set are absent in the concrete input
+			for _, m := range fl.maps {
+				var ks []string
+				for _, k := range keys {
+					ks = append(ks, fmt.Sprintf("(= wf_k %s)", smtStr(k)))
+				}
+				cond := "false"
+				if len(ks) > 0 {
+					cond = "(or " + strings.Join(ks, " ") + ")"
+				}
+				pins = append(pins, fmt.Sprintf("(forall ((wf_k String)) (! (=> (not %s) (not (select (dom_%s %s) wf_k))) :pattern ((select (dom_%s %s) wf_k))))", cond, m.sort, m.term, m.sort, m.term))
+			}
+		}
+		for _, l := range gl {
+			if strings.HasSuffix(l.path, ".key") {
+				continue
+			}
 			if v, ok := in[l.path]; ok && pinnable(l.path, in) {
 				pins = append(pins, fmt.Sprintf("(= %s %s)", l.term, v))
 			}
